@@ -34,6 +34,10 @@ def enc(x):
         return {str(k): enc(v) for k, v in x.items()}
     if x is None or isinstance(x, str):
         return x
+    if callable(x):
+        # function objects (lookup dictionaries): module-qualified name of the underlying Python function
+        g = getattr(x, 'py_func', x)
+        return 'fn:%s.%s' % (getattr(g, '__module__', '?'), getattr(g, '__name__', repr(g)))
     return repr(x)
 
 spec = json.load(sys.stdin)
